@@ -200,11 +200,9 @@ def zipBcast {β γ : Type} [Inhabited β] [Inhabited γ] (f : α → β → γ)
   | some s => .ok (ofFn s (fun ix => f (a.get (bcIx a.shape ix)) (b.get (bcIx b.shape ix))))
 
 /-- split a list into everything but the last two entries, and the last two -/
-def splitLast2 : List Nat → Option (List Nat × Nat × Nat)
-  | [] => none
-  | [_] => none
-  | [p, n] => some ([], p, n)
-  | d :: r => (splitLast2 r).map (fun x => (d :: x.1, x.2.1, x.2.2))
+def splitLast2 (l : List Nat) : Option (List Nat × Nat × Nat) :=
+  if l.length < 2 then none
+  else some (l.take (l.length - 2), l.getD (l.length - 2) 0, l.getD (l.length - 1) 0)
 
 /-- `a @ b` for `a.ndim ≥ 2`, `b.ndim ≥ 2`: matrix product on the last two axes, leading
 (batch) axes broadcast.  (numpy's promotion of 1-d operands is never reached by the code
